@@ -38,9 +38,9 @@ manifest = {
         },
         {
             "name": "tlc-conformance-extras",
-            "path": "harness/check_X01.py harness/check_X02.py harness/check_X03.py",
+            "path": "harness/check_X01.py harness/check_X02.py harness/check_X03.py harness/check_X04.py harness/check_X05.py",
             "serves_properties": [],
-            "kind_free_text": "the same technique applied to system behaviour outside the 20 listed properties (specification growth): X01 sampler start states, greedy caller, quality / MEC fields (spec/StartAndQuality); X02 command-line configuration resolution (spec/Arguments); X03 PEDERR statistic, multiset algebra, k-mer statistics (spec/PedErrAndBags). Run with ./check X0n --tier quick|thorough; evidence in evidence/X0n.json; their findings are listed in KNOWN_FINDINGS.json under X0n and never raise an alarm for a listed property.",
+            "kind_free_text": "the same technique applied to system behaviour outside the 20 listed properties (specification growth): X01 sampler start states, greedy caller, quality / MEC fields (spec/StartAndQuality); X02 command-line configuration resolution (spec/Arguments); X03 PEDERR statistic, multiset algebra, k-mer statistics (spec/PedErrAndBags); X04 counting, dosage and log-space arithmetic, gametes and crosses (spec/CountingAndDosage); X05 sequence encodings, targets files / SNP merging, VCF value and record text (spec/EncodingAndLoci). Run with ./check X0n --tier quick|thorough; evidence in evidence/X0n.json; their findings are listed in KNOWN_FINDINGS.json under X0n and never raise an alarm for a listed property.",
         },
     ],
     "checks": [],
